@@ -5,7 +5,7 @@ offending key and of every start tag's '<' and '>' is recorded while writing and
 the ranges in the diagnostics (and with the bytes of the file at those ranges).
 """
 from .. import fake_ai, fb as fbm, run
-from .common import (Case, HELD, VIOLATED, INCONCLUSIVE, bad_outcome, diag_list, files_text, h, lua_script, rng)
+from .common import (Case, HELD, VIOLATED, INCONCLUSIVE, bad_outcome, diag_list, files_text, h, lua_script, rng, endpoint_flake)
 
 ID = "C10"
 LEVEL = "exploration"
@@ -416,7 +416,7 @@ def run_job(job, ctx):
         run.rm(root)
     wit = {"files": files_text({fname: data}), "diff": diff.decode("utf-8") if diff else None, "job": job}
     key0 = h([fname, data.decode("utf-8", "replace")])
-    if res.cls == "wall-timeout":
+    if res.cls == "wall-timeout" or endpoint_flake(res):
         return [Case(INCONCLUSIVE, key=key0, summary="wall timeout", evals=1)]
     dl = diag_list(res)
     if bad_outcome(res) or dl is None:
